@@ -23,6 +23,7 @@ INVARIANT NothingAfterClose
 INVARIANT NothingAfterLost
 INVARIANT CloseAlwaysSent
 INVARIANT StateAgrees
+INVARIANT PumpOnlyWhenAccepted
 PROPERTY TableHolds
 PROPERTY InOrderHolds
 VIEW MCView
